@@ -27,6 +27,21 @@ def check(pid, engine, category, text, note, technique=TECH, design=None):
                        design=design or "DESIGN.md section 7, %s" % pid)
 
 
+check("C01", "rocq-core", "proof",
+      "Theorems in coq/core/Properties/C01.v over the cluster model Cluster.v (N nodes driven only through the actor handlers), for every "
+      "history H of distinct-stamp operations within one forgiveness period and every trace of well-formed events (client operation with any set "
+      "of acknowledging replicas = lost/delivered direct messages, batches of earlier operations delivered to any node any number of times in any "
+      "order, complete exchanges, removal half and fetch+modification half of an exchange as separate events in any interleaving): every event "
+      "keeps every node consistent (set invariant, set = store, everything held is an operation of H) and no view ever goes back; one complete "
+      "exchange makes the repairing node hold at least what the peer holds; and if after the last client operation every ordered pair of nodes "
+      "completes an exchange, EVERY node's set and store show, for every id, exactly the greatest-stamp operation of H (live at that stamp if a "
+      "put, tombstone if a delete; ids never written are absent). The pre-fix acceptance rule is refuted (lagging node serves a deleted "
+      "document). Model tied to the code by 2-4 real in-process nodes (hx-cluster): named schedules + random schedules, compared after every "
+      "event, with the convergence oracle (ids, bytes, stamps) at quiescence.",
+      "Trusted: Coq kernel, models Orswot/Actor/Cluster.v, extraction + driver, the Rust executor and the in-process transport / wall-clock hooks. "
+      "The theorem's trace has no purge/restart events (purge is a no-op within the period by C08, restart preserves views by C07; both are "
+      "exercised by the executor and compared with the model). Document bytes: oracle and model comparison, not the theorem. Chitchat, timers "
+      "and the distributor's batching loop are not modelled.")
 check("C02", "rocq-core", "proof",
       "Theorems in coq/core/Properties/C02.v over the model Actor.v of the keyspace actor handlers: Agree (for every id the set's view — live at t / "
       "tombstone at t / nothing — equals the store's metadata) together with the set invariant is preserved by every request (Set, MultiSet, "
@@ -55,6 +70,15 @@ check("C05", "rocq-core", "proof",
       "orswot.rs by exhaustive replica pairs from <= 3 (4)-operation histories and random pairs (hx-orswot mode=c05).",
       "Trusted: Coq kernel, model Orswot.v, extraction + driver, Rust executor. Repair is conditional on acceptance (within one forgiveness "
       "period / gap-free); stamps valid with tick >= 1. The actor-level MultiDel/MultiSet path is C02/C01's subject.")
+check("C06", "rocq-core", "proof",
+      "Theorems in coq/core/Properties/C06.v: the call returns Ok exactly when every selected replica acknowledged, otherwise a consistency "
+      "failure stating (acknowledged, selected) with acknowledged < selected; on Ok at least `required level` distinct other nodes acknowledged "
+      "(given the selection facts proved in C15); whatever the result, the mutation or a newer one for the same id is in the STORE of the issuer "
+      "and of every acknowledging replica, and stays there through every later event; after a failure the mutation reaches any node with the next "
+      "batch carrying it. Tied to lib.rs/client.rs/consistency_impl.rs by the real ReplicatedStoreHandle with the real selector on 2-4 in-process "
+      "nodes: all levels x all operation kinds x all subsets of unreachable replicas (hx-cluster focus=c06).",
+      "Trusted: as C01. Selection properties are premises here (C15). One data centre in the executor's clusters. The 2 s selection cache and RPC "
+      "timeouts are runtime behaviour outside the model.")
 check("C07", "rocq-core", "proof",
       "Theorems in coq/core/Properties/C07.v: for EVERY store with valid stamps the set rebuilt by load_states_from_storage (metadata replayed "
       "in stamp order through source 0) satisfies the set invariant and shows exactly the store's live ids and tombstones with their stamps; "
